@@ -20,6 +20,8 @@ Line protocol (stdin → stdout):
   wigner 2J 2M e:2λ e:2λ   the D-function of the node whose children are the two edges:
                         `D 2J 2M 2μ alpha=-phi… beta=theta… gamma=0`
   oppdecay              `oppdecay true|false`
+  oppsign id            `sign ±1`: the sign with which the helicity of state `id` enters the aligned amplitude
+                        symbol (`get_opposite_helicity_sign`)
   chain id 2s sfx       the Wigner-D functions of the axis-angle alignment sum of final state `id`
                         (`formulate_rotation_chain`), one `D 2s m=… mp=… alpha=… beta=… gamma=…` per line
                         (sorted), then `end`
@@ -261,6 +263,11 @@ def handle (t : Topo) (toks : List String) : Topo × List String :=
   | ["angles"] =>
     (t, (sortDict (helicityAngles t)).map (fun kv => "A " ++ kv.1 ++ "=" ++ kv.2) ++ ["end"])
   | ["oppdecay"] => (t, [s!"oppdecay {hasDecayingOpposite t}"])
+  | ["oppsign", id] =>
+    -- `get_opposite_helicity_sign`: −1 for an opposite-helicity state, +1 otherwise (incl. the initial state)
+    match id.toInt? with
+    | some id => (t, [s!"sign {if id != -1 && isOpposite t id then (-1 : Int) else 1}"])
+    | none => (t, ["bad-oppsign"])
   | ["chain", id, twoS, sfx] =>
     match id.toInt?, twoS.toInt? with
     | some id, some twoS => (t, sortStrs (rotationChain t id twoS sfx) ++ ["end"])
